@@ -10,13 +10,14 @@ Report(ok, what) == IF ok THEN TRUE ELSE PrintT(what)
 CheckMsg(e) ==
   /\ Report(e.wire = Enc(e.kind, e.abs), <<"BAD", "layout-differs-from-specification", l>>)
   /\ Report(e.back_same, <<"BAD", "conformant-encoding-not-recovered", l>>)
+  /\ Report(e.again_same, <<"BAD", "second-compose-differs", l>>)
 CheckJa3(e) ==
-  LET ref == Ja3(e.wire) IN
-  /\ Report(e.ja3 = ref,
-            <<"BAD", IF e.ja3 = Ja3Variant(e.wire, TRUE, TRUE) THEN
-                        (IF Ja3Variant(e.wire, TRUE, TRUE) = Ja3Variant(e.wire, FALSE, TRUE) THEN "ja3-scsv-omitted"
-                         ELSE IF Ja3Variant(e.wire, TRUE, TRUE) = Ja3Variant(e.wire, TRUE, FALSE) THEN "ja3-grease-cipher-kept"
-                         ELSE "ja3-grease-cipher-kept-and-scsv-omitted")
+  LET Match(kg, ds) == e.ja3 = Ja3Variant2(e.wire, kg, ds, FALSE) \/ e.ja3 = Ja3Variant2(e.wire, kg, ds, TRUE) IN
+  /\ Report(e.ja3 = Ja3Variant2(e.wire, FALSE, FALSE, FALSE) \/ ~Match(FALSE, FALSE), <<"DEV", "ja3-drops-one-byte-grease-point-formats", l>>)
+  /\ Report(Match(FALSE, FALSE),
+            <<"BAD", IF Match(TRUE, FALSE) THEN "ja3-grease-cipher-kept"
+                     ELSE IF Match(FALSE, TRUE) THEN "ja3-scsv-omitted"
+                     ELSE IF Match(TRUE, TRUE) THEN "ja3-grease-cipher-kept-and-scsv-omitted"
                      ELSE "ja3-differs-from-published-algorithm", l>>)
   /\ Report(e.ja3 = e.ja3_again /\ e.ja3 = e.ja3_reparsed, <<"BAD", "ja3-not-a-function-of-the-message", l>>)
 Init == l = 1
